@@ -276,7 +276,22 @@ class Lexer:
 
             # A character constant may be an escaped sequence
             # We assume a single alpha-numerical character or space
-            if self.read() == "\\" and self.read(2).isprintable():
+            if self.read() == "\\" and self.read(2)[1:] in list("x01234567"):
+                # Hexadecimal (\xh...) or octal (\o, \oo, \ooo) escape
+                hexadecimal = self.read(2)[1] == "x"
+                digits = "0123456789abcdefABCDEF" if hexadecimal else "01234567"
+                length = 2
+                while (
+                    self.read(length + 1)[length:] != ""
+                    and self.read(length + 1)[length] in digits
+                    and (hexadecimal or length < 4)
+                ):
+                    length += 1
+                if hexadecimal and length == 2:
+                    raise TokenError("Expected hexadecimal digit.")
+                value = self.read(length)
+                self.pos += length
+            elif self.read() == "\\" and self.read(2).isprintable():
                 value = self.read(2)
                 self.pos += 2
             elif self.read().isprintable():
@@ -2018,6 +2033,10 @@ class ExpressionEvaluator(Parser):
         try:
             constant = self.match_type(CharacterConstant)
             char = constant.token
+            if len(char) > 2 and char[0] == "\\" and char[1] == "x":
+                return np.int64(int(char[2:], 16))
+            if len(char) >= 2 and char[0] == "\\" and char[1] in "01234567":
+                return np.int64(int(char[1:], 8))
             if len(char) == 2 and char[0] == "\\":
                 # Simple escape sequences
                 escapes = {
